@@ -405,6 +405,84 @@ func c07strict(p *Program, r *Report, fns map[string]*ssa.Function) {
 				highOK = true
 			}
 		}
+		if !lowOK || !highOK {
+			// any other spelling (a switch case `c < 33 || c > 126`, mirrored comparisons, a hoisted local): in a loop over
+			// the whole input, every path that goes on to the next character knows 33 ≤ c ≤ 126, and leaving the loop
+			// early cannot lead to an accepting return
+			lcr := NewLinCtx(p, fn)
+			for _, h := range fn.Blocks {
+				if !isLoopHeader(h) {
+					continue
+				}
+				var elems []ssa.Value
+				for _, b := range fn.Blocks {
+					if !h.Dominates(b) {
+						continue
+					}
+					for _, in := range b.Instrs {
+						v, ok := in.(ssa.Value)
+						if !ok {
+							continue
+						}
+						if x, idx, ok := elemRead(v); ok && x == ssa.Value(param) && fullRangeInduction(idx, func(w ssa.Value) bool { return w == ssa.Value(param) }) != nil {
+							elems = append(elems, v)
+						}
+					}
+				}
+				if len(elems) == 0 {
+					continue
+				}
+				lo, hi := true, true
+				nLatch := 0
+				for _, pb := range h.Preds {
+					if !h.Dominates(pb) {
+						continue
+					}
+					nLatch++
+					f := lcr.FactsOf(MustCondsAtBlock(fn, pb))
+					okLo, okHi := false, false
+					for _, e := range elems {
+						if lcr.Entails(f, lcr.Lin(e).scale(-1).addConst(33)) {
+							okLo = true
+						}
+						if lcr.Entails(f, lcr.Lin(e).addConst(-126)) {
+							okHi = true
+						}
+					}
+					lo, hi = lo && okLo, hi && okHi
+				}
+				// early exits of the loop body reject
+				exitsReject := true
+				for _, b := range fn.Blocks {
+					if b == h || !h.Dominates(b) {
+						continue
+					}
+					inLoop := false
+					for _, pb := range h.Preds {
+						if h.Dominates(pb) && reachableFrom(b, map[*ssa.BasicBlock]bool{h: true})[pb] {
+							inLoop = true
+						}
+					}
+					if !inLoop {
+						continue
+					}
+					for _, sb := range b.Succs {
+						stillIn := sb == h
+						for _, pb := range h.Preds {
+							if h.Dominates(pb) && reachableFrom(sb, map[*ssa.BasicBlock]bool{h: true})[pb] {
+								stillIn = true
+							}
+						}
+						if !stillIn && canReachAccept(fn, sb) {
+							exitsReject = false
+						}
+					}
+				}
+				if nLatch > 0 && exitsReject {
+					lowOK, highOK = lowOK || lo, highOK || hi
+				}
+			}
+		}
 		r.Add("C07.strict", FnName(fn), "every input character below 33 rejects", fn.Pos(), lowOK, "loop over the whole input")
 		r.Add("C07.strict", FnName(fn), "every input character above 126 rejects", fn.Pos(), highOK, "loop over the whole input")
 		okCase, howCase := mixedCaseRejects(p, fn)
